@@ -32,7 +32,7 @@ Theorem pop_iff sk b :
   verify_pop H (Some (public_key sk)) b = Some (VBool true) <->
   (sk <> f0 /\ b = enc1 (smul1 sk (H pop_key (enc2 (pk_of sk))))).
 Proof.
-  unfold verify_pop. rewrite good_is. cbn [public_key mk_pubkey pk_point].
+  unfold verify_pop. rewrite good_is. cbn [public_key pk_point].
   split.
   - intro E. injection E as E. apply verify_iff_canonical_sig in E; [exact E|apply H_in_G1].
   - intro E. f_equal. apply verify_iff_canonical_sig; [apply H_in_G1|exact E].
